@@ -57,19 +57,63 @@ Print Assumptions C20_path_found.
     [fsize]/[fread]/[writable]: the file system.  The size reported by getsize need not even equal
     the number of bytes read (a file growing in between): whatever was read is what comes back. *)
 
-(** input handler: for every byte string b at the recorded path and every way (keyword / position)
-    of passing the recorded and the replayed path, the replay writes exactly b at the path of the
-    REPLAYED call and returns that path; the only file opened for reading is the recorded one *)
+(** input handler: for every byte string b at the recorded path, every way (keyword / position) of
+    passing the recorded and the replayed path, and EVERY state [fs_play] of the file system the replay
+    runs on (the replayed path may already hold a longer, shorter or equal file, or none): afterwards the
+    path of the REPLAYED call holds exactly b ([fs_set]: [C20_fs_after_restore]), every other path is
+    untouched, that path is returned; the only file opened for reading is the recorded one *)
 Theorem C20_file_roundtrip :
   forall (qp : list N -> str) (qp_dec : str -> list N), (forall b, qp_dec (qp b) = b) ->
-  forall fsize fread writable h args_rec kw_rec args_play kw_play p_rec p_play b,
+  forall fsize fread writable h args_rec kw_rec args_play kw_play p_rec p_play b (fs_play : fstate),
     passes_path h args_rec kw_rec p_rec -> passes_path h args_play kw_play p_play ->
     str_ok p_rec = true -> within_limit h fsize p_rec -> fread p_rec = Ans b -> bytes_ok b = true ->
     writable p_play = true ->
-    input_trip h fsize fread writable qp qp_dec args_rec kw_rec args_play kw_play
-    = (Replayed (Ans p_play, [(p_play, b)]), [p_rec]).
+    input_trip h fsize fread writable qp qp_dec args_rec kw_rec args_play kw_play fs_play
+    = (Replayed (Ans p_play, fs_set p_play b fs_play), [p_rec]).
 Proof. exact input_roundtrip. Qed.
 Print Assumptions C20_file_roundtrip.
+
+(** what [fs_set p b fs] means: p holds exactly b, nothing else changed *)
+Theorem C20_fs_after_restore : forall p b fs,
+  fs_get p (fs_set p b fs) = Some b /\ (forall q, q <> p -> fs_get q (fs_set p b fs) = fs_get q fs).
+Proof. exact (fun p b fs => conj (fs_get_set_same p b fs) (fun q N => fs_get_set_other p q b fs N)). Qed.
+Print Assumptions C20_fs_after_restore.
+
+(** the restore itself, on any previous state and for any recorded data that decodes to b *)
+Theorem C20_restore_overwrites : forall h writable recorded args kwargs fs p pth b,
+  passes_path h args kwargs p -> writable p = true -> deserialize_file recorded = Ans (pth, b) ->
+  restore_input h writable recorded args kwargs fs = (Ans p, fs_set p b fs).
+Proof. exact restore_input_sets. Qed.
+Print Assumptions C20_restore_overwrites.
+
+(** it is the truncation of open(.., "wb") that makes it so: a write at offset 0 over a longer file keeps the tail *)
+Theorem C20_truncation_needed : forall old b, (length b < length old)%nat -> write_at0 old b <> b.
+Proof. exact write_without_truncate_keeps_tail. Qed.
+Print Assumptions C20_truncation_needed.
+
+(** several recordings replayed one after another into the same working path - shrinking, growing,
+    undecodable ones in between, any initial state: the path holds exactly the bytes of the LAST one,
+    and no other path is touched; replaying twice is the same as replaying once *)
+Theorem C20_replay_sequence :
+  forall (qp : list N -> str) (qp_dec : str -> list N), (forall b, qp_dec (qp b) = b) ->
+  forall writable h recs args kwargs fs p p_rec b v',
+    passes_path h args kwargs p -> writable p = true -> str_ok p_rec = true -> bytes_ok b = true ->
+    cassette_trip qp qp_dec (serialize_file b p_rec) = Some v' ->
+    fs_get p (restore_all h writable (recs ++ [v']) args kwargs fs) = Some b.
+Proof. exact stored_sequence_last. Qed.
+Print Assumptions C20_replay_sequence.
+
+Theorem C20_replay_sequence_confined : forall h writable recs args kwargs fs p q,
+  passes_path h args kwargs p -> q <> p ->
+  fs_get q (restore_all h writable recs args kwargs fs) = fs_get q fs.
+Proof. exact restore_sequence_others. Qed.
+Print Assumptions C20_replay_sequence_confined.
+
+Theorem C20_replay_twice : forall h writable recorded args kwargs fs p pth b,
+  passes_path h args kwargs p -> writable p = true -> deserialize_file recorded = Ans (pth, b) ->
+  restore_all h writable [recorded; recorded] args kwargs fs = restore_all h writable [recorded] args kwargs fs.
+Proof. exact restore_twice. Qed.
+Print Assumptions C20_replay_twice.
 
 (** output handler: the holder restored from the stored recording has content b *)
 Theorem C20_file_roundtrip_output :
@@ -84,14 +128,14 @@ Print Assumptions C20_file_roundtrip_output.
 (** in particular a file whose CONTENT is the placeholder text comes back as a file, not as "above limit" *)
 Theorem C20_file_roundtrip_placeholder_content :
   forall (qp : list N -> str) (qp_dec : str -> list N), (forall b, qp_dec (qp b) = b) ->
-  forall fsize fread writable h args_rec kw_rec args_play kw_play p_rec p_play,
+  forall fsize fread writable h args_rec kw_rec args_play kw_play p_rec p_play (fs_play : fstate),
     passes_path h args_rec kw_rec p_rec -> passes_path h args_play kw_play p_play ->
     str_ok p_rec = true -> within_limit h fsize p_rec -> fread p_rec = Ans PLACEHOLDER ->
     writable p_play = true ->
     fst (intercept_file h fsize fread args_rec kw_rec) = Ans (serialize_file PLACEHOLDER p_rec) /\
     serialize_file PLACEHOLDER p_rec <> above_limit_result p_rec /\
-    input_trip h fsize fread writable qp qp_dec args_rec kw_rec args_play kw_play
-    = (Replayed (Ans p_play, [(p_play, PLACEHOLDER)]), [p_rec]).
+    input_trip h fsize fread writable qp qp_dec args_rec kw_rec args_play kw_play fs_play
+    = (Replayed (Ans p_play, fs_set p_play PLACEHOLDER fs_play), [p_rec]).
 Proof. exact input_roundtrip_placeholder_content. Qed.
 Print Assumptions C20_file_roundtrip_placeholder_content.
 
@@ -123,12 +167,12 @@ Print Assumptions C20_limit_content_not_consulted.
 (** through the cassette: an above-limit input is represented by the placeholder, nothing was read *)
 Theorem C20_limit_honoured_trip :
   forall (qp : list N -> str) (qp_dec : str -> list N), (forall b, qp_dec (qp b) = b) ->
-  forall fsize fread writable h args_rec kw_rec args_play kw_play p_rec p_play,
+  forall fsize fread writable h args_rec kw_rec args_play kw_play p_rec p_play (fs_play : fstate),
     passes_path h args_rec kw_rec p_rec -> passes_path h args_play kw_play p_play ->
     str_ok p_rec = true -> beyond_limit h fsize p_rec -> writable p_play = true ->
     intercept_file h fsize fread args_rec kw_rec = (Ans (above_limit_result p_rec), []) /\
-    input_trip h fsize fread writable qp qp_dec args_rec kw_rec args_play kw_play
-    = (Replayed (Ans p_play, [(p_play, PLACEHOLDER)]), []).
+    input_trip h fsize fread writable qp qp_dec args_rec kw_rec args_play kw_play fs_play
+    = (Replayed (Ans p_play, fs_set p_play PLACEHOLDER fs_play), []).
 Proof. exact input_above_limit. Qed.
 Print Assumptions C20_limit_honoured_trip.
 
@@ -197,14 +241,25 @@ Module NonVacuity.
   Example roundtrip_instance :
     input_trip h (fs_size fs) (fs_read fs) (fun _ => true) qp_id qp_id
                [self; AStr (U"/in/rec")] [] [self] [(U"path", AStr (U"/play/in"))]
-    = (Replayed (Ans (U"/play/in"), [(U"/play/in", content)]), [U"/in/rec"]).
+               [(U"/other", [1%N]); (U"/play/in", content ++ content)]      (* a longer file is already there *)
+    = (Replayed (Ans (U"/play/in"), [(U"/other", [1%N]); (U"/play/in", content)]), [U"/in/rec"]).
   Proof. vm_compute. reflexivity. Qed.
 
   Example placeholder_content_instance :
     input_trip h (fs_size fs) (fs_read fs) (fun _ => true) qp_id qp_id
-               [self; AStr (U"/in/ph")] [] [self; AStr (U"/play/ph")] []
+               [self; AStr (U"/in/ph")] [] [self; AStr (U"/play/ph")] [] []
     = (Replayed (Ans (U"/play/ph"), [(U"/play/ph", PLACEHOLDER)]), [U"/in/ph"]).
   Proof. vm_compute. reflexivity. Qed.
+
+  (* three recordings of 32, 24 and 0 bytes replayed one after another into a path holding 64 bytes *)
+  Example sequence_instance :
+    let stored b := match cassette_trip qp_id qp_id (serialize_file b (U"/in/rec")) with Some v => v | None => VNone end in
+    let run recs := fs_get (U"/play/in")
+                      (restore_all h (fun _ => true) recs [self; AStr (U"/play/in")] [] [(U"/play/in", content ++ content)]) in
+    run [stored content] = Some content /\ run [stored content; stored PLACEHOLDER] = Some PLACEHOLDER /\
+    run [stored content; stored PLACEHOLDER; stored []] = Some [] /\
+    run [stored []; stored content; stored content] = Some content.
+  Proof. vm_compute. repeat split. Qed.
 
   Example above_limit_hypotheses :
     passes_path h [self] [(U"path", AStr (U"/in/big"))] (U"/in/big") /\ beyond_limit h (fs_size fs) (U"/in/big").
